@@ -144,6 +144,59 @@ def c18(ctx):
                 else:
                     unlisted.append({"shape": w, "units": [str(ux), str(uy)], "invariant": inv,
                                      "xs": [str(v) for v in got[0]], "ys": [str(v) for v in got[1]]})
+    # larger shapes (beyond the findings table): random shapes with up to 13 nodes; coordinates
+    # vs the model, and the violated invariants of the real layout vs those of the model's own
+    # coordinates (the model IS the recorded behaviour of the unchanged code)
+    import random as _random
+    rng = _random.Random(ctx.seed * 53 + 3)
+
+    def rand_shape(n):
+        if n == 0:
+            return None
+        k = rng.randint(0, n - 1)
+        return (0, rand_shape(k), rand_shape(n - 1 - k))
+
+    from .props_tree import label
+    big = [label(rand_shape(rng.randint(8, 13))) for _ in range(150 if quick else 3000)]
+    big += [label(x) for x in (
+        (0, (0, (0, None, None), (0, (0, None, None), (0, None, None))), (0, (0, None, None), (0, (0, None, None), (0, None, None)))),
+    )]
+    blines = []
+    for s in big:
+        for rep in (False, True):
+            blines.append((s, rep, f"layout 1/1 1/1 {1 if rep else 0} {shape_wire(s)}"))
+        blines.append((mirror(s), False, f"layout 1/1 1/1 0 {shape_wire(mirror(s))}"))
+    bans = drv.ask([l for _, _, l in blines])
+    for (s, rep, _), a in zip(blines, bans):
+        try:
+            got = real_layout(s, UNITS[0][0], UNITS[0][1], rep)
+        except Exception as e:  # noqa
+            unlisted.append({"shape": shape_wire(s), "problem": "layout raised " + type(e).__name__})
+            continue
+        m = parse_model(a)
+        if m is None or (list(got[0]), list(got[1]), got[2]) != (m[0], m[1], m[2]):
+            diffs.append({"shape": shape_wire(s), "repeat": rep, "impl": [[str(v) for v in got[0]]], "model": a[:300]})
+            if m is not None and not rep:
+                new_bad = invariants(s, got[0], got[1], got[2], UNITS[0][0], UNITS[0][1]) - \
+                    invariants(s, m[0], m[1], m[2], UNITS[0][0], UNITS[0][1])
+                for inv in sorted(new_bad):
+                    unlisted.append({"shape": shape_wire(s), "invariant": inv, "nodes": len(ids_of(s)),
+                                     "note": "violated by the real layout but not by the recorded behaviour (model)"})
+    # mirror symmetry on the larger shapes, relative to the model
+    for s in big:
+        w = shape_wire(s)
+        mi = dict(zip(preorder_ids(mirror(s)), zip(*real_layout(mirror(s), UNITS[0][0], UNITS[0][1], False)[:2])))
+        xs, ys, _ = real_layout(s, UNITS[0][0], UNITS[0][1], False)
+        real_sym = all(mi[i] == (-x, y) for i, x, y in zip(preorder_ids(s), xs, ys))
+        a1 = parse_model(drv.ask([f"layout 1/1 1/1 0 {w}"])[0])
+        a2 = parse_model(drv.ask([f"layout 1/1 1/1 0 {shape_wire(mirror(s))}"])[0])
+        if a1 and a2:
+            mm = dict(zip(preorder_ids(mirror(s)), zip(a2[0], a2[1])))
+            model_sym = all(mm[i] == (-x, y) for i, x, y in zip(preorder_ids(s), a1[0], a1[1]))
+            if model_sym and not real_sym:
+                unlisted.append({"shape": w, "invariant": "mirror_symmetric", "nodes": len(ids_of(s)),
+                                 "note": "mirror symmetry lost relative to the recorded behaviour (model)"})
+    ctx.notes["larger_random_shapes"] = len(big)
     # repeat / mirror on the real code
     for s in shs:
         if len(ids_of(s)) > table_n:
